@@ -38,6 +38,8 @@ func runC10(c *Ctx) {
 	checkS2(c, ev)
 	ruleS3(c, "S3")
 	ruleS4(c, "S4")
+	ruleG9(c, "S5")
+	ruleG10(c, "S6")
 }
 
 // checkProvenance: Decode -> (document, filename, fileIndex stores) -> use.
